@@ -658,7 +658,46 @@ pub async fn open_redb(ctx: &Arc<RunCtx>, disk: &SimDisk) -> Result<(RedbStore, 
 
 // ------------------------------------------------------------------------------------ Model mode
 
+/// C18 on synthetic range sets, including heights next to u64::MAX (the statement's "random
+/// large values"): a 12-height universe placed at a chooser-selected base, every candidate range
+/// around it. Not a reached store state — an auxiliary clause that costs nothing per run.
+fn c18_synthetic(ctx: &Arc<RunCtx>) {
+    for _ in 0..6 {
+        ctx.begin_span("c18syn");
+        let base: u64 = *ctx.pick("syn.base", &[0u64, 1 << 20, (1u64 << 32) - 6, u64::MAX - 14, u64::MAX - 12]);
+        let bits = ctx.choose("syn.bits", 1 << 12);
+        let stored: BTreeSet<u64> = (1..=12u64).filter(|i| bits & (1 << (i - 1)) != 0).map(|i| base + i).collect();
+        let mut ranges: Vec<std::ops::RangeInclusive<u64>> = Vec::new();
+        for h in &stored {
+            match ranges.last_mut() {
+                Some(r) if r.end().checked_add(1) == Some(*h) => *r = *r.start()..=*h,
+                _ => ranges.push(*h..=*h),
+            }
+        }
+        let lo = base.saturating_add(ctx.range("syn.lo", 0, 13));
+        let hi = base.saturating_add(ctx.range("syn.hi", 0, 13));
+        ctx.end_span();
+        let Ok(br) = BlockRanges::try_from(&ranges[..]) else { continue };
+        let rule = admission(&stored, lo, hi);
+        ctx.oracle("C18.synthetic_ranges");
+        let got = std::panic::catch_unwind(std::panic::AssertUnwindSafe(|| br.check_insertion_constraints(lo..=hi).ok()));
+        match got {
+            Ok(g) if g == rule => {}
+            Ok(g) => ctx.violation("C18", "synthetic_ranges", if base > (1 << 40) { "near_u64_max" } else { "small" },
+                format!("range {lo}..={hi} on stored {br}: check_insertion_constraints={g:?}, set rule={rule:?}")),
+            Err(_) => ctx.violation("C18", "synthetic_ranges", "panic",
+                format!("check_insertion_constraints({lo}..={hi}) on stored {br} panicked")),
+        }
+    }
+}
+
 async fn run_model(ctx: &Arc<RunCtx>, allow_unsafe: bool) {
+    if !allow_unsafe {
+        c18_synthetic(ctx);
+        if !ctx.findings.lock().unwrap().is_empty() {
+            return;
+        }
+    }
     let max_len = if ctx.tier == Tier::Thorough { 200 } else { 60 };
     let mut g = Gen::new(ctx, allow_unsafe, max_len);
     let n_ops = ctx.range("n_ops", 1, if ctx.tier == Tier::Thorough { 300 } else { 60 });
